@@ -30,7 +30,7 @@ def _const_policy():
 
 
 # sequence-valued interpreted functions are enabled per property once its harness copes with them
-_SEQ_ON = {"C01", "C03", "C04", "C06", "C13"}
+_SEQ_ON = {"C01", "C02", "C03", "C04", "C05", "C06", "C11", "C13", "C19"}
 
 
 def _seq_policy():
